@@ -150,6 +150,49 @@ func c14Handler(p *core.Prog, r *core.Report) {
 				}
 			}
 		})
+		// an explicit (non-zero) Timeout always bounds the context, whether or
+		// not the parent has its own deadline: assuming Timeout != 0, no return
+		// is reachable that does not pass WithTimeout(parent, cb.Timeout)
+		isWT := func(i ssa.Instruction) bool {
+			c, ok := i.(*ssa.Call)
+			if !ok {
+				return false
+			}
+			o := core.CalleeObj(c)
+			if o == nil || o.Pkg() == nil || !strings.HasSuffix(o.Pkg().Path(), "context") || o.Name() != "WithTimeout" {
+				return false
+			}
+			fl := core.LoadedField(c.Call.Args[1])
+			return fl != nil && fl.Name() == "Timeout"
+		}
+		nonZero := func(from, to *ssa.BasicBlock) bool {
+			// veto the edge that needs Timeout == 0
+			ifi, ok := from.Instrs[len(from.Instrs)-1].(*ssa.If)
+			if !ok {
+				return false
+			}
+			bo, ok := ifi.Cond.(*ssa.BinOp)
+			if !ok || (bo.Op != token.EQL && bo.Op != token.NEQ) {
+				return false
+			}
+			x, y := bo.X, bo.Y
+			if _, isC := x.(*ssa.Const); isC {
+				x, y = y, x
+			}
+			k, isK := core.ConstInt(y)
+			fl := core.LoadedField(core.StripConv(x))
+			if !isK || k != 0 || fl == nil || fl.Name() != "Timeout" {
+				return false
+			}
+			zeroEdge := from.Succs[0]
+			if bo.Op == token.NEQ {
+				zeroEdge = from.Succs[1]
+			}
+			return to == zeroEdge && from.Succs[0] != from.Succs[1]
+		}
+		res := core.ReachAvoiding(f, nil, core.IsReturn, isWT, nonZero)
+		r.Check(!res.Found, "C14-R2", fname(f), "a non-zero Timeout always bounds the built context", p.Pos(f.Pos()),
+			"assuming Timeout != 0 every path passes WithTimeout(parent, Timeout)", "an explicit Timeout (a received ttl, a per-hop budget) is ignored on some path, e.g. when the parent already has a deadline: "+p.TrailString(res))
 		r.Check(okCancel && okTimeout, "C14-R2", fname(f), "every built context has a deadline", p.Pos(f.Pos()), "WithTimeout(parent, Timeout), or WithCancel only when the parent has a deadline", fmt.Sprintf("a context can be built without a deadline (withCancelGuarded=%v withTimeout=%v)", okCancel, okTimeout))
 	}
 	// the handler gets the exchange's context
